@@ -10,13 +10,16 @@ import (
 	"encoding/hex"
 	"encoding/pem"
 	"fmt"
+	"github.com/google/gce-tcb-verifier/keys/gcpkms"
 	"io"
 	"math/big"
 	"os"
 	"path/filepath"
 	"sort"
+	"sync"
 	"sync/atomic"
 	"time"
+	"verifharness/mc"
 
 	"github.com/google/gce-tcb-verifier/cmd"
 	"github.com/google/gce-tcb-verifier/cmd/output"
@@ -44,9 +47,13 @@ const (
 	MemMem     = "memkm+memca"
 	MemGcs     = "memkm+gcsca"
 	LocalLocal = "localkm+localca"
-	Bucket     = "bkt"
-	RootPath   = "root.crt"
-	CertDir    = "certs"
+	// Cloud KMS key manager (the repository's gcpkms.Manager and Signer) over the model service of
+	// kms.go, with the in-memory and the storage-backed authority. Library-level only (no CLI).
+	GcpMem   = "gcpkms+memca"
+	GcpGcs   = "gcpkms+gcsca"
+	Bucket   = "bkt"
+	RootPath = "root.crt"
+	CertDir  = "certs"
 )
 
 // Kinds lists all world kinds.
@@ -59,6 +66,7 @@ type World struct {
 	MemCA  *memca.CertificateAuthority
 	Store  *Store // MemGcs
 	Dir    string // LocalLocal: contains keys/ and buckets/
+	KMS    *KMS   // GcpMem, GcpGcs
 	// WrapStorage lets a harness decorate the storage client handed to gcsca (MemGcs only).
 	WrapStorage func(storagei.Client) storagei.Client
 	// OneProcess keeps the key-manager and certificate-authority objects alive across commands
@@ -73,13 +81,24 @@ var scratchSeq int64
 
 // ScratchRoot is where on-disk worlds live; removed by Cleanup.
 func ScratchRoot() string {
-	r := os.Getenv("VERIF_SCRATCH")
-	if r == "" {
-		r = filepath.Join("/var/tmp", fmt.Sprintf("verif-%d", os.Getpid()))
-	}
-	os.MkdirAll(r, 0o755)
-	return r
+	scratchOnce.Do(func() {
+		// one directory per process (workers of one check share VERIF_SCRATCH, set by ./check, which
+		// also removes it when the check ends however it ends)
+		base := os.Getenv("VERIF_SCRATCH")
+		if base == "" {
+			base = "/var/tmp"
+		}
+		scratchRoot = filepath.Join(base, fmt.Sprintf("verif-%d", os.Getpid()))
+		mc.AtExit(Cleanup)
+	})
+	os.MkdirAll(scratchRoot, 0o755)
+	return scratchRoot
 }
+
+var (
+	scratchOnce sync.Once
+	scratchRoot string
+)
 
 // Cleanup removes the scratch root.
 func Cleanup() { os.RemoveAll(ScratchRoot()) }
@@ -103,6 +122,12 @@ func NewWorld(kind string) *World {
 		w.Store = NewStore()
 	case LocalLocal:
 		w.Dir = newDir()
+	case GcpMem:
+		w.KMS = NewKMS()
+		w.MemCA = memca.Create()
+	case GcpGcs:
+		w.KMS = NewKMS()
+		w.Store = NewStore()
 	default:
 		panic("unknown world kind " + kind)
 	}
@@ -146,6 +171,9 @@ func (w *World) Clone() *World {
 	if w.Store != nil {
 		c.Store = w.Store.Clone()
 	}
+	if w.KMS != nil {
+		c.KMS = w.KMS.Clone()
+	}
 	if w.Dir != "" {
 		c.Dir = newDir()
 		if err := copyTree(w.Dir, c.Dir); err != nil {
@@ -173,8 +201,23 @@ func (w *World) components() (km cmd.CommandComponent, ca cmd.CommandComponent) 
 	return w.build()
 }
 
+// Restart forgets the long-lived component objects of a one-process world: the process ended (or
+// crashed) and the next command runs in a new one.
+func (w *World) Restart() { w.km, w.ca = nil, nil }
+
 func (w *World) build() (km cmd.CommandComponent, ca cmd.CommandComponent) {
+	gcp := func() *gcpkms.Manager {
+		return &gcpkms.Manager{Project: "p", Location: "l", KeyRingID: "r", KeyClient: w.KMS, IAMClient: iam{}}
+	}
 	switch w.Kind {
+	case GcpMem:
+		return gcp(), w.MemCA
+	case GcpGcs:
+		var st storagei.Client = w.Store
+		if w.WrapStorage != nil {
+			st = w.WrapStorage(st)
+		}
+		return gcp(), &gcsca.CertificateAuthority{Storage: st, PrivateBucket: Bucket, RootPath: RootPath, SigningCertDirInGCS: CertDir}
 	case MemMem:
 		return &memkm.T{Signer: w.Signer}, w.MemCA
 	case MemGcs:
@@ -232,6 +275,9 @@ func DefaultBootstrap(now time.Time) BootstrapOpts {
 // Bootstrap runs rotate.Bootstrap; wrap may decorate the keys.Context first.
 func (w *World) Bootstrap(o BootstrapOpts, f Flags, wrap func(*Session)) error {
 	s, err := w.Open(f, func(ctx context.Context) context.Context {
+		if w.KMS != nil {
+			ctx = gcpkms.NewBootstrapContext(ctx, &gcpkms.BootstrapContext{RootKeyID: "root-key", SigningKeyID: "signing-key", SigningKeyOperators: []string{"operator@example.invalid"}})
+		}
 		return rotate.NewBootstrapContext(ctx, &rotate.BootstrapContext{RootKeyCommonName: o.RootCN, SigningKeyCommonName: o.SignCN,
 			RootKeySerial: big.NewInt(o.RootSerial), SigningKeySerial: big.NewInt(o.SignSerial), Now: o.Now})
 	})
@@ -257,7 +303,12 @@ func (w *World) Rotate(o RotateOpts, f Flags, wrap func(*Session)) (string, erro
 	if skc.SigningKeyCommonName == "" {
 		skc.SigningKeyCommonName = styp.UEFISigningCommonName
 	}
-	s, err := w.Open(f, func(ctx context.Context) context.Context { return rotate.NewSigningKeyContext(ctx, skc) })
+	s, err := w.Open(f, func(ctx context.Context) context.Context {
+		if w.KMS != nil {
+			ctx = gcpkms.NewSigningKeyContext(ctx, &gcpkms.SigningKeyContext{SigningKeyID: "signing-key"})
+		}
+		return rotate.NewSigningKeyContext(ctx, skc)
+	})
 	if err != nil {
 		return "", err
 	}
@@ -345,6 +396,14 @@ type State struct {
 
 func (w *World) liveKeys() map[string]*rsa.PublicKey {
 	out := map[string]*rsa.PublicKey{}
+	if w.KMS != nil {
+		for _, n := range w.KMS.Live() {
+			if k := w.KMS.Signer.Keys[n]; k != nil {
+				out[n] = &k.PublicKey
+			}
+		}
+		return out
+	}
 	if w.Signer != nil {
 		for k, v := range w.Signer.Keys {
 			out[k] = &v.PublicKey
@@ -404,7 +463,7 @@ func (w *World) objectNames() []string {
 // Inspect reads the durable state back.
 func (w *World) Inspect() *State {
 	st := &State{Entries: map[string]string{}, Certs: map[string]*x509.Certificate{}, CertErr: map[string]string{}, Objects: map[string]string{}, Live: w.liveKeys()}
-	if w.Kind == MemMem {
+	if w.Kind == MemMem || w.Kind == GcpMem {
 		st.RootName, st.PrimaryName = w.MemCA.RootName, w.MemCA.PrimarySigningKey
 		for k, c := range w.MemCA.Certs {
 			if k == w.MemCA.RootName {
